@@ -28,6 +28,9 @@ def der_menu(rng):
         ("tag31", enc(r32, s33, tag=0x31), r32, s33),
         ("trailing", enc(r32, s32, trail=b"\xde\xad"), r32, s32),
         ("r31s32", enc(r32[1:], s32), r32[1:], s32),
+        # r begins with the uncompressed-key prefix, s ends with the bytes of the success status word
+        ("r04-s9000", enc(b"\x04\x04" + r32[2:], s32[:-2] + b"\x90\x00"), b"\x04\x04" + r32[2:],
+         s32[:-2] + b"\x90\x00"),
     ]
     bad = [
         ("empty", b""),
